@@ -11,6 +11,10 @@
 (* character sequence; attribute values and text are character sequences.  *)
 (* Decode is written from the documentation of the conventions, not from   *)
 (* the parser's control flow.                                              *)
+(* In this family Map keys and scalar payloads are CHARACTER SEQUENCES     *)
+(* (so that the encoder can take prefixes off keys and the re-decode of    *)
+(* encoded output is expressible); Jsonable(v) joins them into the usual   *)
+(* string form for the harness.                                            *)
 (***************************************************************************)
 EXTENDS MxjValue, MxjChars
 
@@ -27,14 +31,16 @@ TextKids(e) == SelectSeq(e.ch, IsText)
 (******************************** options ***********************************)
 \* o: [lower, snake, asmap, keep, escdec, tagseq : BOOLEAN, apfx, kpfx : STRING, cast : BOOLEAN]
 TrimSet(o) == IF o.keep THEN {"\t", "\n", "\r"} ELSE {"\t", "\n", "\r", " "}
-TextKey(o) == o.kpfx \o "text"
+Cs1(s) == IF s = "" THEN <<>> ELSE <<s>>      \* prefixes are single characters or empty
+TextKey(o) == Cs1(o.kpfx) \o <<"t", "e", "x", "t">>
+SeqKeyC == <<"_", "s", "e", "q">>
 FoldName(o, cs) == LET s == IF o.snake THEN Snake(cs) ELSE cs IN IF o.lower THEN ToLower(s) ELSE s
-ElemKey(o, nm) == Join(FoldName(o, nm.l))                     \* local name only: the prefix is dropped
-AttrKey(o, nm) == o.apfx \o Join(FoldName(o, nm.l))           \* (prefixes contain no upper-case letters)
+ElemKey(o, nm) == FoldName(o, nm.l)                     \* local name only: the prefix is dropped
+AttrKey(o, nm) == Cs1(o.apfx) \o FoldName(o, nm.l)      \* (prefixes contain no upper-case letters)
 
 \* cast with the default flags (float, bool) over the texts the configs use; C14 has the full chain
-CastDefault(s) == CASE s = "7" -> VF("7") [] s = "1" -> VF("1") [] s = "true" -> VB("true") [] OTHER -> VS(s)
-ScalarOf(o, cs) == LET s == Join(IF o.escdec THEN XmlEscape(cs) ELSE cs) IN
+CastDefault(s) == CASE s = <<"7">> -> VF(s) [] s = <<"1">> -> VF(s) [] s = <<"t", "r", "u", "e">> -> VB(s) [] OTHER -> VS(s)
+ScalarOf(o, cs) == LET s == IF o.escdec THEN XmlEscape(cs) ELSE cs IN
                    IF o.cast THEN CastDefault(s) ELSE VS(s)
 
 (********************************* decode ***********************************)
@@ -50,10 +56,11 @@ Group(es, acc) ==
                THEN [acc EXCEPT ![k] = IF IsList(@) THEN VL(Append(@.it, v)) ELSE VL(<<@, v>>)]
                ELSE acc @@ (k :> v))
 
-SeqTok(i) == [t |-> "i", v |-> ToString(i)]
+Digit(i) == CASE i = 0 -> "0" [] i = 1 -> "1" [] i = 2 -> "2" [] i = 3 -> "3" [] i = 4 -> "4" [] i = 5 -> "5" [] i = 6 -> "6" [] i = 7 -> "7" [] i = 8 -> "8" [] i = 9 -> "9"
+SeqTok(i) == [t |-> "i", v |-> <<Digit(i)>>]
 WithSeq(o, v, i) == IF ~o.tagseq THEN v
-                    ELSE IF IsMap(v) THEN VM([k \in (DOMAIN v.kv) \cup {"_seq"} |-> IF k = "_seq" THEN SeqTok(i) ELSE v.kv[k]])
-                    ELSE VM((TextKey(o) :> v) @@ ("_seq" :> SeqTok(i)))
+                    ELSE IF IsMap(v) THEN VM([k \in (DOMAIN v.kv) \cup {SeqKeyC} |-> IF k = SeqKeyC THEN SeqTok(i) ELSE v.kv[k]])
+                    ELSE VM((TextKey(o) :> v) @@ (SeqKeyC :> SeqTok(i)))
 
 RECURSIVE DecElem(_, _)
 DecElem(e, o) ==
@@ -62,10 +69,17 @@ DecElem(e, o) ==
       ces == [i \in 1..Len(ks) |-> <<ElemKey(o, ks[i].nm), WithSeq(o, DecElem(ks[i], o), i - 1)>>]
       ents == Group(aes \o ces, EmptyFn)
       tx == TextOf(e, o)
-  IN IF DOMAIN ents = {} /\ tx = <<>> THEN VS("")                        \* empty element
+  IN IF DOMAIN ents = {} /\ tx = <<>> THEN VS(<<>>)                      \* empty element
      ELSE IF DOMAIN ents = {} /\ ~o.asmap THEN ScalarOf(o, tx)            \* text-only element
      ELSE VM(IF tx = <<>> THEN ents ELSE [k \in (DOMAIN ents) \cup {TextKey(o)} |-> IF k = TextKey(o) THEN ScalarOf(o, tx) ELSE ents[k]])
 Decode(d, o) == VM(ElemKey(o, d.nm) :> DecElem(d, o))
+
+\* the usual string form (keys and payloads joined) for the harness
+RECURSIVE Jsonable(_)
+Jsonable(v) ==
+  IF IsMap(v) THEN VM([s \in {Join(c) : c \in DOMAIN v.kv} |-> Jsonable(v.kv[CHOOSE c \in DOMAIN v.kv : Join(c) = s])])
+  ELSE IF IsList(v) THEN VL([i \in 1..Len(v.it) |-> Jsonable(v.it[i])])
+  ELSE [t |-> v.t, v |-> Join(v.v)]
 
 (************************** structural statements ***************************)
 RECURSIVE NAttrs(_)
@@ -81,7 +95,7 @@ AttrsDistinct(e, o) == /\ \A i, j \in 1..Len(e.at) : i # j => AttrKey(o, e.at[i]
                        /\ \A i \in 1..Len(ElemKids(e)) : AttrsDistinct(ElemKids(e)[i], o)
 \* no attribute key equals a child key or the text key (only possible with the empty attribute prefix)
 RECURSIVE NoKeyClash(_, _)
-NoKeyClash(e, o) == /\ \A i \in 1..Len(e.at) : AttrKey(o, e.at[i].nm) # TextKey(o) /\ AttrKey(o, e.at[i].nm) # "_seq"
+NoKeyClash(e, o) == /\ \A i \in 1..Len(e.at) : AttrKey(o, e.at[i].nm) # TextKey(o) /\ AttrKey(o, e.at[i].nm) # SeqKeyC
                              /\ \A j \in 1..Len(ElemKids(e)) : AttrKey(o, e.at[i].nm) # ElemKey(o, ElemKids(e)[j].nm)
                     /\ \A i \in 1..Len(ElemKids(e)) : NoKeyClash(ElemKids(e)[i], o)
 \* every attribute, text and empty element of the input is accounted for exactly once
@@ -92,9 +106,9 @@ OneRoot(d, o) == Cardinality(DOMAIN Decode(d, o).kv) = 1
 RECURSIVE StripSeq(_, _)
 StripSeq(v, o) ==
   IF IsMap(v) THEN
-     LET ks == (DOMAIN v.kv) \ {"_seq"}
+     LET ks == (DOMAIN v.kv) \ {SeqKeyC}
          m2 == VM([k \in ks |-> StripSeq(v.kv[k], o)]) IN
-     IF "_seq" \in DOMAIN v.kv /\ ks = {TextKey(o)} /\ (~o.asmap \/ m2.kv[TextKey(o)] = VS("")) THEN m2.kv[TextKey(o)] ELSE m2
+     IF SeqKeyC \in DOMAIN v.kv /\ ks = {TextKey(o)} /\ (~o.asmap \/ m2.kv[TextKey(o)] = VS(<<>>)) THEN m2.kv[TextKey(o)] ELSE m2
   ELSE IF IsList(v) THEN VL([i \in 1..Len(v.it) |-> StripSeq(v.it[i], o)])
   ELSE v
 SeqOnlyAdds(d, o) == NoKeyClash(d, o) => StripSeq(Decode(d, [o EXCEPT !.tagseq = TRUE]), o) = Decode(d, [o EXCEPT !.tagseq = FALSE])
